@@ -119,6 +119,7 @@ class FixSym:
         self.depth = 0
         self.count_fns: dict[str, bool] = {}      # function id -> reads the partition attribute
         self.partial_counts: dict[str, str] = {}  # function id -> why it is not the number of all classes
+        self.silent_ends = 0                       # ways through the (generator) driver that yield nothing
 
     # ------------------------------------------------------------------ entry
     def run(self, fi: FuncInfo):
@@ -153,9 +154,14 @@ class FixSym:
         self.depth += 1
         frame = {"fi": fi, "rets": [], "yields": [], "top": top, "gen": any(isinstance(x, (ast.Yield, ast.YieldFrom)) for x in ast.walk(fi.node))}
         try:
-            self.block(frame, fi.node.body, [st])
+            ends = self.block(frame, fi.node.body, [st])
         finally:
             self.depth -= 1
+        if top and frame["gen"] and not frame.get("recursive"):
+            # ways through a generator driver that hand out nothing at all: falling off the end, or a bare return, before any yield
+            for e_ in list(ends) + [s_ for t_, s_ in frame["rets"] if t_ == ("none",)]:
+                if "__emitted__" not in e_.env:
+                    self.silent_ends += 1
         return frame
 
     # ------------------------------------------------------------------ statements
@@ -236,6 +242,7 @@ class FixSym:
 
     def emit(self, fr, t, st, node):
         if fr["top"]:
+            st.env["__emitted__"] = ("int", 1)
             self.outs.append(Out(t, st.facts, node, fr["fi"]))
         else:
             fr["yields"].append((t, st))
@@ -267,7 +274,7 @@ class FixSym:
         end = getattr(outer, "end_lineno", outer.lineno)
         live = {n.id for n in ast.walk(fn) if isinstance(n, ast.Name) and isinstance(n.ctx, ast.Load) and id(n) not in header
                 and (n.lineno > end or any(n is x for x in ast.walk(outer)))}
-        st2 = State({k: v for k, v in st.env.items() if k in live or k.startswith("__pos@")}, set(st.facts))
+        st2 = State({k: v for k, v in st.env.items() if k in live or k.startswith("__pos@") or k == "__emitted__"}, set(st.facts))
         return st2
 
     def loop(self, fr, s, st):
